@@ -175,71 +175,63 @@ def run(ctx):
         r1.fail('TailCall/sites', '-', 'TailCall must be constructed exactly once, inside eval; found %s' % [s[0].id for s in sites])
     else:
         b, bb, j, s = sites[0]
-        conds = dominating_conditions(b, bb)
-        have = {'flag': False, 'callee_value': False, 'local_recourse': False}
-        vi_value = variant_index(mir, 'xexpr::XExpr', 'Value')
-        vi_call = variant_index(mir, 'xexpr::XExpr', 'Call')
-        vi_lr = variant_index(mir, 'runtime_scope::EvaluationCell', 'LocalRecourse')
-        callee_place = None
-        for d, val in conds:
-            sub = switch_subject(b, d)
-            if sub[0] == 'bool' and sub[1] == ('arg', 4) and val == 'otherwise':
-                have['flag'] = True
-            if sub[0] == 'discr' and sub[2].startswith('xexpr::XExpr') and val == str(vi_value):
-                # the discriminant must be read from the callee expression (field 0 of the Call variant, behind Box)
-                k, v = mirq.chase(b, sub[1]['l'])
-                have['callee_value'] = True
-                callee_place = sub[1]
-            if sub[0] == 'discr' and sub[2].startswith('runtime_scope::EvaluationCell') and val == str(vi_lr):
-                # the cell must come from get_cell_value(callee's index)
-                k, v = mirq.chase(b, sub[1]['l'])
-                if k == 'call' and strip_generics(v[1].get('callee') or '') == 'runtime_scope::RuntimeScope::get_cell_value':
-                    have['local_recourse'] = True
-        # a condition may be the result of a private predicate (`if flag && self.is_local_recourse(callee)`): what does a
-        # `true` result of that predicate imply?  the conditions that dominate every `_0 = true` of its body
-        for d, val in conds:
-            sub = switch_subject(b, d)
-            if sub[0] != 'bool' or val != 'otherwise' or not isinstance(sub[1], tuple) or sub[1][0] != 'call':
-                continue
-            ht = sub[1][1][1] if len(sub[1]) > 1 and isinstance(sub[1][1], tuple) and len(sub[1][1]) > 1 else None
-            hname = strip_generics((ht.get('callee') if isinstance(ht, dict) else None) or '')
-            hb = mir.find(hname)
-            if len(hb) != 1 or hb[0].kind != 'fn':
-                continue
-            H = hb[0]
-            trues = []
-            for i2, j2, s2 in H.stmts():
-                if s2['k'] == 'assign' and s2['place']['l'] == 0 and not s2['place']['p'] and s2['rv']['k'] == 'use' and s2['rv']['op'].get('const', {}).get('bool') is True:
-                    trues.append(i2)
-            # `_0 = move _tmp` with _tmp assigned true in some arms
-            if not trues:
-                for i2, j2, s2 in H.stmts():
-                    if s2['k'] == 'assign' and s2['rv']['k'] == 'use' and s2['rv']['op'].get('const', {}).get('bool') is True and not s2['place']['p']:
-                        trues.append(i2)
-            if not trues:
-                continue
-            common = None
-            for tb in trues:
-                cs = set()
-                for d2, v2 in dominating_conditions(H, tb):
-                    sb2 = switch_subject(H, d2)
-                    if sb2[0] == 'discr':
-                        src2 = 'other'
-                        k2, vv2 = mirq.chase(H, sb2[1]['l'])
-                        if k2 == 'call':
-                            src2 = strip_generics(vv2[1].get('callee') or '')
-                        cs.add((sb2[2].split('<')[0], v2, src2))
-                common = cs if common is None else (common & cs)
-            for tyname, v2, src2 in (common or ()):
-                if tyname.startswith('xexpr::XExpr') and v2 == str(vi_value):
-                    have['callee_value'] = True
-                if tyname.startswith('runtime_scope::EvaluationCell') and v2 == str(vi_lr) and src2 == 'runtime_scope::RuntimeScope::get_cell_value':
-                    have['local_recourse'] = True
-        ok = all(have.values())
-        r1.inst({'site': mirq.site(b, bb, j), 'dominating_conditions': have}, ok=ok)
-        if not ok:
-            missing = [k for k, v in have.items() if not v]
-            r1.fail('TailCall/guard', mirq.site(b, bb, j), 'TailCall can be produced without the condition(s): %s' % ', '.join(missing))
+        # decision table by abstract evaluation of eval on a Call expression: for every combination of (flag, kind of the callee
+        # expression, kind of the callee's cell) what can eval return?  A tail self-call must become TailCall (or a propagated
+        # failure of an argument evaluation) and nothing else; every other combination must never become TailCall.
+        from .lib import absint
+        from .lib.facts import callee_name
+        vi = lambda adt, name: variant_index(mir, adt, name)
+        XE, EC = 'xexpr::XExpr', 'runtime_scope::EvaluationCell'
+        other_exprs = [v['name'] for v in mir.adts[XE]['variants'] if v['name'] not in ('Value', 'Call')]
+        cells = [v['name'] for v in mir.adts[EC]['variants']]
+        table = {}
+        for flag in (True, False):
+            for ck in ['Value', other_exprs[0], other_exprs[-1]]:
+                for cell in (cells if ck == 'Value' else ['LocalRecourse']):
+                    def oracle(tm, vals, env, cell=cell):
+                        nm = strip_generics(callee_name(tm) or '')
+                        if nm in (EFE, EFV):
+                            return ('adt', 'ORDINARY', 'call')
+                        if nm == EVAL:
+                            return absint.UNKNOWN
+                        if nm == 'runtime_scope::RuntimeScope::get_cell_value':
+                            return ('ref', '#cell')
+                        if re.search(r'(::as_ref|::deref|::borrow)$', nm) and vals:
+                            v0 = vals[0]
+                            if isinstance(v0, tuple) and v0 and v0[0] == 'ref':
+                                d = absint.deref(None, env, v0)
+                                if isinstance(d, tuple) and d and d[0] == 'box':
+                                    return ('ref', d[1])
+                            if isinstance(v0, tuple) and v0 and v0[0] == 'box':
+                                return ('ref', v0[1])
+                        return absint.UNKNOWN
+                    env0 = {'_2': ('ref', '#expr'), '_4': flag,
+                            '#expr': ('enum', vi(XE, 'Call'), 'Call', (('box', '#callee'), absint.UNKNOWN)),
+                            '#callee': ('enum', vi(XE, ck), ck, (7,) if ck == 'Value' else (absint.UNKNOWN, absint.UNKNOWN, absint.UNKNOWN)),
+                            '#cell': ('enum', vi(EC, cell), cell, (absint.UNKNOWN, absint.UNKNOWN))}
+                    rs = absint.returns(mir, b, env0, oracle)
+                    kinds = set()
+                    for r in rs:
+                        if isinstance(r, tuple) and r and r[0] == 'ok' and isinstance(r[1], tuple) and len(r[1]) > 2 and r[1][1] == 'TailedEvalResult' and r[1][2] == 'TailCall':
+                            kinds.add('TailCall')
+                        elif isinstance(r, tuple) and r and r[0] == 'err':
+                            kinds.add('failure')
+                        elif isinstance(r, tuple) and len(r) > 1 and r[1] == 'ORDINARY':
+                            kinds.add('ordinary call')
+                        else:
+                            kinds.add('other')
+                    table[(flag, ck, cell)] = kinds
+        for key, kinds in sorted(table.items(), key=str):
+            flag, ck, cell = key
+            tail = flag and ck == 'Value' and cell == 'LocalRecourse'
+            ok = ('TailCall' in kinds and kinds <= {'TailCall', 'failure'}) if tail else ('TailCall' not in kinds)
+            r1.inst({'tail_flag': flag, 'callee_expression': ck, 'callee_cell': cell, 'eval_can_return': sorted(kinds)}, ok=ok, kind=key)
+            if not ok:
+                if tail:
+                    r1.fail('TailCall/not-always', mirq.site(b, bb, j), 'a self-call in tail position (flag set, callee is the local recursion cell) can also end as %s: whether it is trampolined depends on something else, so stack depth and call counts differ between equivalent programs' % sorted(kinds - {'TailCall', 'failure'}))
+                else:
+                    missing = [n for n, c in (('flag', flag), ('callee_value', ck == 'Value'), ('local_recourse', cell == 'LocalRecourse')) if not c]
+                    r1.fail('TailCall/guard', mirq.site(b, bb, j), 'TailCall can be produced without the condition(s): %s' % ', '.join(missing))
         # the argument evaluations of the tail call are not themselves in tail position
     # ---------------- R07.2 flow of the flag inside eval
     r2 = ctx.rule('R07.2', 'inside eval the flag reaches only the TailCall test and the Call-arm dispatch')
